@@ -1,16 +1,19 @@
 """C07 — applying an offered version bump rewrites only that version, to a real newer one."""
 from runner import Stream
 import vlib, gens, render
+from lsp_common import to_model_lines, canon_msgs
 
-PROP_MODULES = ["Vlsp.Props.C07"]
-EXTRA_SCAN = ["Vlsp/Spec/BumpSpec.lean"]
+PROP_MODULES = ["Vlsp.Props.C07", "Vlsp.Props.C07Locate"]
+EXTRA_SCAN = ["Vlsp/Spec/BumpSpec.lean", "Vlsp/Model/Locate.lean"]
 RULE = ("(a) synthetic: random PackageInfo lists (several per line, adjacent/overlapping ranges) x every interesting cursor "
         "column x cached version sets -> real find_at_position + generate_bump_code_actions on a real Cache vs the Lean model; "
         "(b) documents: manifests of all 7 formats rendered from an abstract dependency list under layout choices, real parser, "
         "cursor on every column of every dependency line, every offered TextEdit is applied (UTF-16 aware) and the result "
         "re-parsed: the edited document must declare the same dependencies with exactly one spec changed to the advertised "
         "text, and the advertised target must pass the executable acceptance spec (cached, strictly newer, maximal in its line, "
-        "each due line offered once). non-trivial = at least one action offered; distinct by (format, spec, versions, cursor)")
+        "each due line offered once); (c) locate_version_in_token (which points a package at the version text inside its token before "
+        "the cursor test and the edit) vs its Lean model on tokens/offsets incl. multi-byte and out-of-range ones. "
+        "non-trivial = at least one action offered / a located package; distinct by (format, spec, versions, cursor)")
 ASSUMPTIONS = ["LSP clients apply a TextEdit with UTF-16 columns; the harness does exactly that",
                "the cache reads are real SQLite reads (tied to the cache model by C03/C08)"]
 
@@ -115,7 +118,7 @@ def streams(ctx):
         # pnpm
         deps = [(None, "react", specs[0], ("react", specs[0], None)), ("legacy", "@types/node", specs[1], ("@types/node", specs[1], None))]
         t, d = render.pnpm_workspace(deps, L); add_doc("pnpm", t, d, vs, ("pnpm", tuple(specs[:2])))
-    # recorded finding F-C07-1: the reported range/version is not the token in the file
+    # the witnesses of F-C07-1 (repaired): the reported token is not the version text (JSR imports, npm aliases, quoted uses)
     L0 = render.lay(rng, nonascii=False, crlf=False, quote='"', compact=False, blank=False, comment=False)
     t, d = render.deno_json([("@std/path", "jsr:@std/path@^1.0.0", ("@std/path", "^1.0.0", None))], L0)
     add_doc("jsr", t, d, VSETS[0], ("jsr-finding",))
@@ -127,12 +130,7 @@ def streams(ctx):
     add_doc("gha", t, d, ["v" + x for x in VSETS[0]], ("gha-quoted-finding",))
 
     def known_class(c, cur):
-        tag = c["tag"][0]
-        if tag in ("jsr-finding", "npm-alias-finding", "pypi-finding"):
-            return "F-C07-1"
-        if tag == "gha-quoted-finding":
-            return "F-C07-1"
-        return None
+        return None          # F-C07-1 is repaired: the witness documents above must behave like every other document
 
     def derive(cs, impl):
         der = []
@@ -182,11 +180,82 @@ def streams(ctx):
                             "check": (lambda out, cur=cur, t=t, label=label, vs=c["vs"]: None if out == "T" else ("violation",
                                 f"advertised {label} target {t!r} for {cur!r} is not a cached, strictly newer, maximal version of {vs}"))})
             # completeness: every due line is offered (possibly merged into an earlier label with the same target)
+            kc0 = known_class(c, cur)
             for label in ("patch", "minor", "major"):
                 der.append({"req": vlib.line("bump.due", label, cur, *c["vs"]), "index": i, "history": [c["req"]],
-                            "check": (lambda out, label=label, offered=tuple(labels_offered), cur=cur: None if out == "F" or offered else ("violation",
-                                f"a newer {label} version exists for {cur!r} but no action was offered"))})
+                            "check": (lambda out, label=label, offered=tuple(labels_offered), cur=cur, kc0=kc0: None if out == "F" or offered else (("known", kc0) if kc0 else ("violation",
+                                f"a newer {label} version exists for {cur!r} but no action was offered")))})
         return der
+    # ---- (c) locate_version_in_token vs its model: tokens with the version at the end / in the middle / twice / absent, multi-byte
+    # characters around it, offsets out of range or inside a character, hash-pinned packages, the empty version
+    lcases = []
+    TOK = ["^1.0.0", "npm:real-pkg@^1.0.0", "jsr:@std/path@^1.0.0", "jsr:@std/path@^1.0.0/sub/mod.ts", "npm:@s/p@1.0.0", ">= 1.0", "1.0.0 1.0.0", "é1.0.0é", "@v4\"", "", "日本^1.0.0",
+           "npm:x@", "1.0.0-1.0.0", "v1.0.0"]
+    VER = ["^1.0.0", "1.0.0", ">=1.0", "", "é", "v4", "1.0.0é", "^1.0.0/sub", "0"]
+    for _ in range(400 if tier == "quick" else 20000):
+        pre = rng.choice(["", "  \"", "é: \"", "{\"a\": \"", "x\n  y: ", "日本"])
+        tok = rng.choice(TOK)
+        post = rng.choice(["", "\"", "\",\n", "é"])
+        content = pre + tok + post
+        so = len(pre.encode()) + rng.choice([0, 0, 0, 0, 1, -1, 2])
+        eo = len((pre + tok).encode()) + rng.choice([0, 0, 0, 0, 1, -1, 40])
+        so = max(0, so)
+        ver = rng.choice(VER) if rng.chance(1, 2) else tok[-rng.below(len(tok) + 1):] if tok else ""
+        hsh = "-" if rng.chance(5, 6) else "S" + "a" * 40
+        lcases.append({"req": vlib.line("ca.locate", content, ver, hsh, str(so), str(max(0, eo)), str(rng.below(3)), str(rng.below(30))), "tag": (tok, ver, so - len(pre.encode()), eo - len((pre + tok).encode()), hsh != "-")})
+    out.append(Stream("locate", lcases, nontrivial=lambda c, o: o != "none"))
+    # ---- (d) the handler itself: the real Backend in an LspService, documents whose token is not the version text (JSR import,
+    # npm alias, quoted uses) and ordinary ones; code actions requested on every column of the spec line, then the document is
+    # changed (the spec moves) and requested again: the handler must use the text it cached with the packages
+    SESS = [("jsr", "file:///w/deno.json", '{\n  "imports": {\n    "@std/path": "jsr:@std/path@^1.0.0"\n  }\n}', "jsr", "@std/path", ["1.0.0", "1.0.5", "1.2.0", "2.0.0"], 2),
+            ("npm", "file:///w/package.json", '{\n  "dependencies": {\n    "alias": "npm:real-pkg@^1.0.0",\n    "lodash": "~1.0.0"\n  }\n}', "npm", "real-pkg", ["1.0.0", "1.0.5", "1.2.0"], 2),
+            ("gha", "file:///w/.github/workflows/ci.yml", 'jobs:\n  b:\n    steps:\n      - uses: "actions/checkout@v1.0.0"\n', "github_actions", "actions/checkout", ["v1.0.0", "v1.0.5", "v2.0.0"], 3),
+            ("crates", "file:///w/Cargo.toml", '[dependencies]\nserde = { version = "1.0.0", features = ["derive"] }\n', "crates_io", "serde", ["1.0.0", "1.0.5", "1.1.0"], 1)]
+    scases, sgroups = [], []
+    for eco, uri, text, reg, name, vs, li in SESS:
+        for variant in (text, text.replace(": ", ":   ", 1) if eco != "crates" else text.replace(" = {", "   =   {")):
+            L = [vlib.line("l.start", "T"), vlib.line("l.cache", reg, name, *vs), vlib.line("l.init"),
+                 vlib.line("l.parse", eco, text), vlib.line("l.open", uri, text)]
+            if variant != text:
+                L += [vlib.line("l.parse", eco, variant), vlib.line("l.change", uri, variant)]
+            ln = variant.split("\n")[li]
+            cols = range(len(ln) + 1) if tier != "quick" else range(0, len(ln) + 1, 1 if len(ln) < 60 else 2)
+            for ch in cols:
+                L.append(vlib.line("l.action", uri, str(li), str(ch)))
+            s0 = len(scases)
+            for i, l in enumerate(L):
+                scases.append({"req": l, "tag": (eco, variant != text) if i == 0 else None})
+            sgroups.append((s0, len(scases), eco, variant, li, vs))
+
+    def derive_s(cs, impl):
+        der = []
+        for (a, b, eco, text, li, vs) in sgroups:
+            lines = [c["req"] for c in cs[a:b]]
+            ml, exp, idx = to_model_lines(lines, impl[a:b])
+            for l, e, i in zip(ml, exp, idx):
+                der.append({"req": l, "index": a + i, "check": (lambda out, e=e: None if canon_msgs(out) == canon_msgs(e) else ("model", canon_msgs(e)))})
+            # the property on the handler: every offered edit replaces exactly the version text of the line
+            ln = text.split("\n")[li]
+            offered = 0
+            for i in range(a, b):
+                f = vlib.decode_line(cs[i]["req"])
+                if f[0] != "l.action" or "act [" not in impl[i]:
+                    continue
+                body = impl[i].split("act [", 1)[1].split("]")[0]
+                for item in [x for x in body.split(",") if x]:
+                    title, l1, c1, c2, newtext = item.split("|")
+                    offered += 1
+                    old = ln[int(c1):int(c2)]
+                    newt = vlib.unhx(newtext)
+                    if int(l1) != li or not (old and old[0] in "^~v0123456789" and old.lstrip("^~v")[:1].isdigit() and newt[:1] == old[:1] and ln[int(c2):int(c2) + 1] in ('"', "", " ", ",")):
+                        der.append({"req": vlib.line("ml.settle"), "index": i, "history": lines[: i - a + 1],
+                                    "check": (lambda out, old=old, newt=newt, ln=ln: ("violation", f"the edit replaces {old!r} with {newt!r} in the line {ln!r}: that is not the version text"))})
+            if offered == 0:
+                der.append({"req": vlib.line("ml.settle"), "index": a, "history": lines,
+                            "check": (lambda out, ln=ln: ("violation", f"no code action was offered on any column of {ln!r} although newer versions are cached"))})
+        return der
+    out.append(Stream("handler-sessions", scases, nontrivial=lambda c, o: c.get("tag") is not None, derive=derive_s, model_eq=lambda i, m: True,
+                      shrinkable=False, nt_on_impl=True))
     out.append(Stream("actions-doc", dcases, nontrivial=lambda c, o: "=>" in o, derive=derive, model_eq=lambda i, m: True, shrinkable=False, nt_on_impl=True))
     return out
 
